@@ -10,6 +10,8 @@ use serde::{Deserialize, Serialize};
 pub enum Dev {
     /// replace the point at position `pos` by bad encoding #`bad`
     BadPoint { pos: usize, bad: usize },
+    /// replace the point at position `pos` by itself plus a point outside the subgroup (pairs like the honest one)
+    TorsionPoint { pos: usize },
     /// replace the scalar at position `pos` by bad scalar #`bad`
     BadScalar { pos: usize, bad: usize },
     Truncate(usize),
@@ -198,7 +200,7 @@ impl Model for M16 {
         let mut v = vec![];
         for (t, e) in self.entries.iter().enumerate() {
             for c in e.codecs() {
-                if matches!(c, Codec::VecOwned | Codec::VecRef | Codec::BoxSlice) {
+                if matches!(c, Codec::VecOwned | Codec::VecRef | Codec::BoxSlice | Codec::JsonReader | Codec::JsonValue) {
                     continue;
                 }
                 v.push(St { ty: t, codec: c, dev: None });
@@ -219,6 +221,9 @@ impl Model for M16 {
             }
             for bad in 0..self.bads(p.len()).len() {
                 a.push(Dev::BadPoint { pos, bad });
+            }
+            if p[0] & 0x40 == 0 {
+                a.push(Dev::TorsionPoint { pos });
             }
             if st.codec == Codec::Json {
                 for kind in 0..4u8 {
@@ -264,6 +269,7 @@ impl Model for M16 {
                 let p = &e.points_of(0)[*pos];
                 format!("point #{} := {}", pos, self.bads(p.len())[*bad].label)
             }
+            Some(Dev::TorsionPoint { pos }) => format!("point #{} := itself + a point outside the subgroup", pos),
             Some(Dev::BadScalar { pos, bad }) => format!("scalar #{} := {}", pos, self.bad_sc[*bad].label),
             Some(d) => format!("{:?}", d),
             None => "valid encoding".into(),
@@ -303,6 +309,16 @@ impl Model for M16 {
                         // layout changed so that the component cannot be located: machinery problem, not a verdict
                         panic!("cannot locate point #{} in the {:?} encoding of {}", pos, c, tn);
                     }
+                }
+                bad_payload_expected = true;
+            }
+            Some(Dev::TorsionPoint { pos }) => {
+                let p = &e.points_of(0)[*pos];
+                let t = rf::torsion_perturbed(p).expect("torsion perturbation");
+                cls = "bad-point:honest-plus-torsion".into();
+                match substitute(&enc, c, p, &t, false) {
+                    Some(x) => input = x,
+                    None => panic!("cannot locate point #{} in the {:?} encoding of {}", pos, c, tn),
                 }
                 bad_payload_expected = true;
             }
@@ -381,7 +397,7 @@ impl Model for M16 {
                         o.outcome("valid:rejected");
                         o.expect(&format!("C16:valid-encoding-decodes:{}:{:?}", tn, c), false, "Ok", "Err");
                     }
-                    Some(Dev::BadPoint { .. }) => o.outcome("bad-point:rejected"),
+                    Some(Dev::BadPoint { .. }) | Some(Dev::TorsionPoint { .. }) => o.outcome("bad-point:rejected"),
                     Some(Dev::Truncate(_)) => o.outcome("truncated:rejected"),
                     Some(Dev::BadScalar { .. }) => o.outcome(if zero_scalar { "zero-scalar:rejected" } else { "noncanonical-scalar:rejected" }),
                     _ => o.outcome("other:rejected"),
